@@ -3,12 +3,17 @@ from __future__ import annotations
 
 import json
 
+from translator import c07 as tr
+
 from .. import core
-from ..core import Broken, Ctx, Violation
+from ..core import Broken, Ctx, TranslationError, Violation
 
 PROP_FILE = "Properties/C07.v"
 
 TRUSTED = [
+    "translator/c07.py (python ast -> Gen_C07.v `src_cfg`): which rows create_params of the three modes builds, how "
+    "_run_pipelines_array_to_datatree binds the tuple to the keys, which mapping it zips, whether "
+    "_get_short_dimension_names_new / _get_parameter_types keep the order of the enabled steps; fails closed",
     "correspondence harness: harness/props/c07.py generators, harness/drivers/c07.py, probes/verif_probes_c07.py "
     "(base-16 code of the received arguments in the pixel bucket; decoded by the driver)",
     "modelled, not verified: pandas MultiIndex.from_product/to_xarray (levels sorted, cell = its own label, repeated "
@@ -162,16 +167,24 @@ def pick_scheds(r, k):
     return s
 
 
+def corpus_cases():
+    import pathlib
+
+    d = pathlib.Path(__file__).resolve().parent.parent / "corpus" / "C07"
+    out = []
+    for f in sorted(d.glob("*.json")):
+        c = json.loads(f.read_text())
+        c.setdefault("scheds", [SCHEDS[0]])
+        c["corpus"] = f.stem
+        out.append(c)
+    return out
+
+
 def gen_cases(ctx: Ctx):
     r = ctx.rng("cases")
-    cases = []
-    # the witnesses of the refuted statements first (DESIGN section 7)
-    cases.append(dict(kind="enc", mode="sequential", params=[dict(values=[1, 2, 3]), dict(values=[10, 12])],
-                      defaults=[0, 0], scheds=[SCHEDS[0]], sleep_scale=0.0))
-    cases.append(dict(kind="enc", mode="product", params=[dict(values=[1, 1, 2])], defaults=[0], scheds=[SCHEDS[0]],
-                      sleep_scale=0.0))
-    cases.append(dict(kind="enc", mode="custom", params=[dict(w=1), dict(w=None)], table=[[5, 6], [7, 8]],
-                      defaults=[[0], 0], scheds=[SCHEDS[0]], sleep_scale=0.0))
+    # the formerly failing inputs first (defects repaired in round 2; DESIGN section 7) + minimised seeded misses
+    cases = corpus_cases()
+    ncorpus = len(cases)
     n_enc = ctx.budget(44, 220)
     plan = []
     for mode in ("product", "custom", "sequential"):
@@ -179,7 +192,7 @@ def gen_cases(ctx: Ctx):
             plan.append((mode, npar, ""))
     plan += [("product", 2, "dup"), ("custom", 2, "one_list"), ("sequential", 1, "vec")]
     k = 0
-    while len(cases) < 3 + n_enc:
+    while len(cases) < ncorpus + n_enc:
         mode, npar, fl = plan[k % len(plan)] if k < 2 * len(plan) else (
             r.choice(["product", "product", "custom", "sequential"]), r.randrange(1, 4), "")
         k += 1
@@ -316,9 +329,9 @@ def emit_case(sub) -> str:
 def emit_file(subs) -> str:
     body = ";\n  ".join(emit_case(s) for s in subs)
     return ("From Coq Require Import ZArith List.\nFrom PyxelV Require Import Model.Parallel.\n"
-            "Import ListNotations.\n"
+            "From PyxelGen Require Import Gen_C07.\nImport ListNotations.\n"
             f"Definition cases : list par_case := [\n  {body}\n].\n"
-            "Eval vm_compute in mismatches cases.\nEval vm_compute in violations cases.\n")
+            "Eval vm_compute in mismatches_cfg src_cfg cases.\nEval vm_compute in violations cases.\n")
 
 
 # ------------------------------------------------------------------------------------------ classification
@@ -415,6 +428,31 @@ def account(ctx: Ctx, subs):
     ctx.cov["distinct_nontrivial"] = ctx.cov.get("distinct_nontrivial", 0) + len(seen)
 
 
+def translate_leg(ctx: Ctx) -> dict:
+    try:
+        text = tr.translate(ctx.repo)
+        ctx.cov["translated_rows"] = tr.rows(ctx.repo)
+    except TranslationError as ex:
+        ctx.broken.append(Broken("translation", "translator/c07.py (how the dask path builds and binds the parameter "
+                                 "array)", str(ex)))
+        ctx.log(f"translation failed (fail closed): {ex}")
+        text = tr.FALLBACK
+    return {"Gen_C07.v": text}
+
+
+def ensure_gen(ctx: Ctx):
+    """(replay mode) write + compile Gen_C07.v so that case files can import it"""
+    gd = ctx.build / "gen"
+    gd.mkdir(parents=True, exist_ok=True)
+    try:
+        text = tr.translate(ctx.repo)
+    except TranslationError:
+        text = tr.FALLBACK
+    (gd / "Gen_C07.v").write_text(text)
+    core.ensure_lib(ctx, targets=["theories/Model/Parallel.vo"])
+    core.coqc(ctx, gd / "Gen_C07.v", [(gd, "PyxelGen")])
+
+
 def run(ctx: Ctx):
     ctx.trusted += TRUSTED
     ctx.assumptions += [
@@ -424,7 +462,7 @@ def run(ctx: Ctx):
         "dask executes every chunk once and places it by index (not proved; sampled under the schedulers listed)",
         "the thread-RNG defect is exhibited on the real code only by the forced schedule (barrier probes), not by the theorem",
     ]
-    core.proof_leg(ctx, {}, PROP_FILE)
+    core.proof_leg(ctx, translate_leg(ctx), PROP_FILE)
     cases = gen_cases(ctx)
     subs, mism, viol = correspondence(ctx, cases)
     account(ctx, subs)
@@ -467,6 +505,15 @@ def search(ctx: Ctx):
                 c["scheds"] = [SCHEDS[0], SCHEDS[3]]
                 c["outputs"] = True
                 cases.append(c)
+    # short names that collide, every position pattern of 3 and 4 parameters, all modes (binding of values to keys)
+    for pat in [q for n in (2, 3, 4) for q in partitions(n) if len(set(q)) < len(q)]:
+        for mode in ("product", "custom", "sequential"):
+            c = gen_encs(r, mode, pat, vector="mix")
+            c["scheds"] = [SCHEDS[0]]
+            c["outputs"] = (mode == "product")
+            cases.append(c)
+    # the inputs of the repaired defects (a regression is reported with a concrete input)
+    cases += corpus_cases()
     subs, mism, viol = correspondence(ctx, cases, tag="s")
     for sub, is_m in viol:
         ctx.violations.append(to_violation(sub, is_m))
@@ -488,7 +535,7 @@ def replay(ctx: Ctx, rp: dict) -> int:
     print("implementation now returns:", json.dumps(obs, default=str)[:3000])
     if "crash" in obs or "driver_error" in obs:
         return 1
-    core.ensure_lib(ctx, targets=["theories/Model/Parallel.vo"])
+    ensure_gen(ctx)
     subs = expand(c, obs)
     ok, evals, se = core.coq_eval(ctx, "replay", emit_file(subs))
     bad = (not ok) or core.parse_int_list(evals[1]) != []
